@@ -639,7 +639,8 @@ def run(rep, ctx):
     for r_ in RD.walk():
         if r_["k"] == "ReturnStmt" and "Bad_Line" in render(r_):
             fa_ = norm_facts(RD, r_, loop_conditions=False)
-            if len(dc) == 1 and ("binary", False) in fa_ and any(t.startswith("decstring(") and pol is True for t, pol in fa_):
+            feasible_ = not any((t, not pol) in fa_ for t, pol in fa_)           # `c && !c` guards nothing
+            if len(dc) == 1 and feasible_ and ("binary", False) in fa_ and any(t.startswith("decstring(") and pol is True for t, pol in fa_):
                 okr_ = True
     p1.check(okr_, "dense-reader-rejects", short_loc(RD.loc), "a dense value line rejected by decstring yields NLW2_SOLRead_Bad_Line")
     vrn = one("mp::VecReader::ReadNext", lambda f: "double" in f.full and "pair" not in f.full)
